@@ -203,6 +203,9 @@ def aerostruct_problem(surfaces, flow=None, npts=1, compressible=False, rotation
         if flows is not None:
             for k in ("v", "alpha", "Mach_number", "re", "rho", "speed_of_sound", "load_factor"):
                 prob.model.connect("%s_%d" % (k, i), pn + "." + k)
+        # the coupled group's own load_factor (weight relief, fuel, point masses) is connected as the documentation does
+        if any(s.get("struct_weight_relief") or s.get("distributed_fuel_weight") or "n_point_masses" in s for s in surfaces):
+            prob.model.connect("load_factor" if flows is None else "load_factor_%d" % i, pn + ".coupled.load_factor")
         for s in surfaces:
             name = s["name"]
             com = pn + "." + name + "_perf."
